@@ -68,9 +68,19 @@ def main(prop):
         violations.append(({'kind': 'sort-call', 'property': prop, 'clauses': j['viol'], 'record': r, 'seed': seed(), 'tier': tier()}, txt))
     # the worker's own comparison: complete runs of the real worker for every thread count
     wdir = os.path.join(wd, 'worker')
-    p = nvh(['worker-order', '--tier', tier(), '--seed', seed(), '--shards', NCPU, '--out', wdir], timeout=7200)
-    wgen = json.loads(p.stdout.strip().splitlines()[-1])
-    wfiles = sorted(glob.glob(os.path.join(wdir, 'worker-*.ndjson')))
+    import shutil as _sh
+    _sh.rmtree(wdir, ignore_errors=True)
+    p = nvh(['worker-order', '--tier', tier(), '--seed', seed(), '--shards', NCPU, '--out', wdir], timeout=7200, check=False)
+    crashed = None
+    if p.returncode != 0:
+        # a panic on a pool thread makes rayon abort the process: that is an outcome of the code under test
+        mk = os.path.join(wdir, 'current.json')
+        crashed = json.load(open(mk)) if os.path.exists(mk) else {'what': 'unknown'}
+        crashed['stderr'] = p.stderr[-600:]
+        wgen = {'records': None}
+    else:
+        wgen = json.loads(p.stdout.strip().splitlines()[-1])
+    wfiles = [f for f in sorted(glob.glob(os.path.join(wdir, 'worker-*.ndjson'))) if os.path.getsize(f) > 0]
     wouts = run_shards('WorkerOrder.tla', wfiles, {}, timeout=7000 if thorough else 1200, xmx='4g')
     wtot, wwant, wjudged = {'runs': 0, 'fails': 0, 'matches': 0, 'ties': 0}, {}, {}
     for f, st, lines in wouts:
@@ -82,7 +92,10 @@ def main(prop):
             elif j.get('ev') == 'JUDGE':
                 wwant.setdefault(f, set()).add(j['id'])
                 wjudged[(f, j['id'])] = j
-    if wtot['runs'] != wgen['records']:
+    if crashed:
+        violations.append(({'kind': 'worker-order-crash', 'property': prop, 'clauses': ['library_crashed_during_worker_run'], 'run': crashed, 'seed': seed(), 'tier': tier()},
+                           'library_crashed_during_worker_run: %s with pattern %r on %s items, %s threads: %s' % (crashed.get('what'), crashed.get('pattern'), crashed.get('n'), crashed.get('threads'), (crashed.get('stderr') or '').strip().splitlines()[-1:] or '')))
+    elif wtot['runs'] != wgen['records']:
         die_tool('worker-order record count mismatch: harness %d, TLC %d' % (wgen['records'], wtot['runs']))
     wrecs = fetch_records(wwant)
     for key, j in sorted(wjudged.items(), key=lambda x: x[0][1]):
